@@ -116,11 +116,12 @@ def run(ctx):
     # ---- 1. writer -> parser ------------------------------------------------------
     junk_info = "2020-12-08 19:53:28,310 geckolib.utils.shell INFO something unrelated\n"
     junk_non = "2020-12-08 19:53:28,311 geckolib.driver DEBUG polling\n"
-    names = ["Heating", "Pump 1 and 2 running", "a)b(c", "x"]
+    names = ["Heating", "Pump 1 and 2 running", "a)b(c", "x", "HeatingTo[100]", "Setpoint [104] reached", "lights [fade]",
+             "[abc]", "x [0x41] y", "[1, 2]", "a [] b"]
     bl = blocks(rng, 6 if ctx.quick else 60)
     for i, block in enumerate(bl):
         for pre, term, post, cls in (("", "", "", "-"), (junk_info, junk_non, junk_info, "X|N|X"), (junk_non + junk_info, junk_non, "", "NX|N|")):
-            name = rng.choice(names)
+            name = names[(3 * i + len(recs)) % len(names)]
             en = (rng.randrange(1, 65536), rng.randrange(256), rng.randrange(256))
             co = (rng.randrange(1, 65536), rng.randrange(256), rng.randrange(256))
             pack = rng.choice(["inXM", "inYT", "inYJ", "MrSteam", "inXE"])
@@ -153,7 +154,9 @@ def run(ctx):
                 continue
             base[p] = rng.choice([34, 39, 92, 10, 13, 0, 255, rng.randrange(256)])
         # bracketed text inside one segment (the parser also looks for "[...]" byte lists on every line)
-        for payload in rng.sample([b"[]", b"[12, 34]", b"['0x41', '0x42']", b"[zz]", b"[ ]", b"[0x]"], 3):
+        # ... and the protocol's own tag text (block bytes are arbitrary; the wire decoder takes the LAST closing tag)
+        for payload in rng.sample([b"[]", b"[12, 34]", b"['0x41', '0x42']", b"[zz]", b"[ ]", b"[0x]"], 3) + \
+                [b"</DATAS>", b"<DATAS>", b"</PACKT>", b"</DATAS></PACKT>"]:
             if len(payload) <= seg:
                 k = rng.randrange(2, max(3, 1024 // seg - 1))
                 p0 = k * seg + rng.randrange(0, seg - len(payload) + 1)
